@@ -854,6 +854,7 @@ func runStressLines(r *hx.Run, op string) {
 }
 
 func runStress(r *hx.Run) {
+	runDirPart(r)
 	rounds := 4000 * r.Scale
 	kinds := []string{"var", "set", "dset", "var", "crowd-var", "set", "event", "dset", "crowd-set", "var", "set", "crowd-event",
 		"var", "set", "dset", "crowd-var", "event", "set", "crowd-dset", "var", "varx", "varx", "varx", "varx", "varx"}
